@@ -132,6 +132,8 @@ def r04_3(rep, M, rid):
         else:
             rep.violation(rid, f"{name}: position / element lists", f"`{pos_list}` and `{num_list}` are not appended under the same conditions: positions and elements of the "
                           "prototype cell get out of step (an atom is listed with the element of another)", M.where(fq, pa[0]))
+        # the reductions over the copies (norm / argmin / mean) need at least one copy: the guard must imply non-emptiness
+        nonempty_guard(rep, M, rid, fq, name, fl, pa[0])
         # (a)+(b): the appended position combines copies that were first brought to one periodic image
         val = pa[0].args[0]
         sl = fl.slice(val, fl.node_of(pa[0]))
@@ -177,6 +179,120 @@ def r04_3(rep, M, rid):
             rep.ok(rid, f"{name}: the prototype cell is spanned by the selected spans (`{norm(cell)}` <- `{spans}`)")
         else:
             rep.violation(rid, f"{name}: cell of the prototype", f"`{norm(cell) if cell is not None else None}` does not derive from the selected spans `{spans}`", M.where(fq, atoms[0]))
+
+
+def nonempty_guard(rep, M, rid, fq, name, fl, site):
+    conds = [t for t, pol in fl.cfg.branch_conditions(fl.node_of(site)) if isinstance(t, ast.If) and pol is True]
+    implied = False
+    weak = None
+    for t in conds:
+        for c in ([t.test] if not (isinstance(t.test, ast.BoolOp) and isinstance(t.test.op, ast.And)) else t.test.values):
+            if isinstance(c, ast.Name):
+                implied = True
+            if isinstance(c, ast.Compare) and len(c.ops) == 1 and isinstance(c.left, ast.Call) and isinstance(c.left.func, ast.Name) and c.left.func.id == "len":
+                k = c.comparators[0]
+                if isinstance(k, ast.Constant) and isinstance(k.value, (int, float)):
+                    if (isinstance(c.ops[0], ast.NotEq) and k.value == 0) or (isinstance(c.ops[0], ast.Gt) and k.value >= 0) or (isinstance(c.ops[0], ast.GtE) and k.value >= 1):
+                        implied = True
+                else:
+                    weak = c
+    if implied:
+        rep.ok(rid, f"{name}: the copies of a basis atom are combined only when at least one copy was found")
+    elif weak is not None:
+        rep.violation(rid, f"{name}: guard `{norm(weak)}` of the combination", f"`{norm(weak)}` compares the number of copies with a run-time quantity that can be 0 (when no "
+                      "group has any copy - e.g. every atom lies outside the cell along a non-periodic direction - it reads `0 >= 0`), so an empty list reaches "
+                      "np.linalg.norm(..., axis=1) / argmin: AxisError instead of 'no prototype cell'; the sibling builder tests `len(...) != 0`", M.where(fq, weak))
+    else:
+        raise AnalysisError(f"{name}: guard of the combination of copies not recognised")
+
+
+def builders_total(rep, M, rid):
+    """failure-freedom clauses of the prototype-cell search (used by C01 / C17: 'returns normally')"""
+    for name in ("_find_proto_cell_3d", "_find_proto_cell_2d"):
+        fq = PF + "." + name
+        fn = M.func(fq)
+        fl = Flow(fn)
+        atoms = [c for c in ast.walk(fn) if isinstance(c, ast.Call) and (M.ext_name(fq, c.func) or "").endswith("Atoms")]
+        kw = {k.arg: k.value for k in atoms[0].keywords} if atoms else {}
+        pos_list = next((x.id for x in ast.walk(kw.get("scaled_positions", ast.Constant(None))) if isinstance(x, ast.Name)), None)
+        for s2 in ast.walk(fn):
+            if isinstance(s2, ast.Assign) and pos_list and norm(s2.targets[0]) == pos_list and isinstance(s2.value, ast.Call) and s2.value.args and isinstance(s2.value.args[0], ast.Name):
+                pos_list = s2.value.args[0].id
+        pa = [c for c in ast.walk(fn) if isinstance(c, ast.Call) and isinstance(c.func, ast.Attribute) and c.func.attr == "append" and norm(c.func.value) == pos_list]
+        if not pa:
+            raise AnalysisError(f"{name}: append of the combined position not found")
+        nonempty_guard(rep, M, rid, fq, name, fl, pa[0])
+    # the smallest-cell filters keep the smallest cell itself for every tolerance >= 0 (siblings must agree on a non-strict comparison)
+    n = 0
+    for q, d in M.functions().items():
+        if M.parent.get(q) != PF:
+            continue
+        for c in ast.walk(d):
+            if isinstance(c, ast.Compare) and len(c.ops) == 1 and any(isinstance(x, ast.Attribute) and x.attr == "cell_size_tol" for x in ast.walk(c)):
+                n += 1
+                tol_right = any(isinstance(x, ast.Attribute) and x.attr == "cell_size_tol" for x in ast.walk(c.comparators[0]))
+                nonstrict = isinstance(c.ops[0], ast.LtE) if tol_right else isinstance(c.ops[0], ast.GtE)
+                if nonstrict:
+                    rep.ok(rid, f"{d.name}: `{norm(c)[:70]}` keeps the smallest cell for every tolerance >= 0")
+                else:
+                    rep.violation(rid, f"{d.name}: `{norm(c)[:70]}`", "strict comparison with (1 + cell_size_tol) * smallest: for cell_size_tol = 0 not even the smallest cell "
+                                  "passes, the candidate list is empty and np.argmax raises ValueError; the sibling filter uses <=", M.where(q, c))
+    if n < 2:
+        raise AnalysisError(f"only {n} smallest-cell filter(s) found in PeriodicFinder (2 siblings expected)")
+
+
+def masked_index_spaces(rep, M, rid):
+    """index-space typing in PeriodicFinder._find_proto_cell: the position of a vector inside `cell[pbc]` (the list of *periodic* cell vectors) is
+    not a cell-axis number; it may only index arrays filtered by the same mask, never a full three-component array"""
+    fq = PF + "._find_proto_cell"
+    fn = M.func(fq)
+    masked = {}     # name -> mask text
+    for s2 in ast.walk(fn):
+        if isinstance(s2, ast.Assign) and len(s2.targets) == 1 and isinstance(s2.targets[0], ast.Name) and isinstance(s2.value, ast.Subscript):
+            sl0 = s2.value.slice
+            if isinstance(sl0, (ast.Call, ast.Name)) and "pbc" in norm(sl0) and "get_cell" in norm(s2.value.value):
+                masked[s2.targets[0].id] = norm(sl0)
+    changed = True
+    while changed:
+        changed = False
+        for s2 in ast.walk(fn):
+            if isinstance(s2, ast.Assign) and len(s2.targets) == 1 and isinstance(s2.targets[0], ast.Name) and s2.targets[0].id not in masked:
+                used = {x.id for x in ast.walk(s2.value) if isinstance(x, ast.Name)} & set(masked)
+                elementwise = isinstance(s2.value, ast.Compare) or (isinstance(s2.value, ast.Call) and (M.ext_name(fq, s2.value.func) or "") in ("numpy.linalg.norm", "numpy.abs"))
+                if used and elementwise:
+                    masked[s2.targets[0].id] = masked[next(iter(used))]
+                    changed = True
+    full = {norm(s2.targets[0]) for s2 in ast.walk(fn) if isinstance(s2, ast.Assign) and isinstance(s2.value, ast.Call)
+            and (M.ext_name(fq, s2.value.func) or "") in ("numpy.array", "numpy.zeros", "numpy.ones") and s2.value.args
+            and ((isinstance(s2.value.args[0], (ast.Tuple, ast.List)) and len(s2.value.args[0].elts) == 3) or (isinstance(s2.value.args[0], ast.Constant) and s2.value.args[0].value == 3))}
+    # maps from the position among the periodic vectors to the cell-axis number: np.where(pbc)[0] and the like
+    axis_maps = {norm(s2.targets[0]) for s2 in ast.walk(fn) if isinstance(s2, ast.Assign) and len(s2.targets) == 1 and isinstance(s2.targets[0], ast.Name)
+                 and any(isinstance(c, ast.Call) and (M.ext_name(fq, c.func) or "") in ("numpy.where", "numpy.nonzero", "numpy.flatnonzero", "numpy.argwhere")
+                         and c.args and "pbc" in norm(c.args[0]) for c in ast.walk(s2.value))}
+    if not masked:
+        raise AnalysisError("_find_proto_cell: list of periodic cell vectors (`cell[pbc]`) not found")
+    n = 0
+    for lp in ast.walk(fn):
+        if not (isinstance(lp, ast.For) and isinstance(lp.iter, ast.Call) and isinstance(lp.iter.func, ast.Name) and lp.iter.func.id == "enumerate"
+                and lp.iter.args and isinstance(lp.iter.args[0], ast.Name) and lp.iter.args[0].id in masked and isinstance(lp.target, ast.Tuple)):
+            continue
+        ivar = norm(lp.target.elts[0])
+        for x in ast.walk(lp):
+            if isinstance(x, ast.Subscript) and norm(x.slice) == ivar and isinstance(x.value, ast.Name):
+                n += 1
+                if x.value.id in masked:
+                    rep.ok(rid, f"_find_proto_cell: `{norm(x)}` - position among the periodic vectors indexes an array over the periodic vectors")
+                elif x.value.id in axis_maps:
+                    rep.ok(rid, f"_find_proto_cell: `{norm(x)}` translates the position among the periodic vectors into the cell-axis number")
+                elif x.value.id in full:
+                    rep.violation(rid, f"_find_proto_cell: `{norm(x)}`", f"`{ivar}` counts the *periodic* cell vectors (`{lp.iter.args[0].id}` = cell[{masked[lp.iter.args[0].id]}]) but "
+                                  f"indexes the three-component array `{x.value.id}` as if it were the cell-axis number: with pbc = [False, True, True] the first periodic "
+                                  "vector is axis 1 but gets the factor (1, 0, 0), the adjacency of the periodic spans points to the wrong images and the region search finds nothing "
+                                  "(a primitive-cell monolayer whose vacuum axis is a or b gets no cluster)", M.where(fq, x))
+                else:
+                    raise AnalysisError(f"_find_proto_cell: index space of `{x.value.id}` in `{norm(x)}` not known")
+    if n < 1:
+        raise AnalysisError("_find_proto_cell: no use of the periodic-vector counter found")
 
 
 # ----------------------------------------------------------------------------- R04.4 reduction of a layered 3D cell
@@ -269,6 +385,18 @@ def run(rep, ctx):
         r04_flag(rep, M, "R04.6")
     rep.rule("R04.7", "every tabulated letter permutation is the bijection its normalizer induces (the same material described from another origin gets the same letters)")
     TO.norm_perm(rep, ctx.tables, "R04.7")
+    rep.rule("R04.8", "every tabulated normalizer is an automorphism of its group and an isometry of the lattice (the normalised cell is the same crystal in the same space group; shared with C05/C14)")
+    from . import shared as _shn
+    _shn.normalizer_tables(rep, ctx.tables, "R04.8", perm=False)
+    rep.floor("R04.8", 2400)
+    rep.rule("R04.9", "the structure is searched on a working copy whose atoms are inside the cell: atoms outside along a non-periodic axis always trigger "
+             "enlargement and centring, periodic axes are wrapped (a monolayer stored outside its cell still gets a region and hence a prototype cell; shared with C01)")
+    with rep.guard("R04.9"):
+        c01.r01_14(rep, M, "R04.9")
+        c01.r01_13(rep, M, "R04.9")
+    rep.rule("R04.10", "the counter of the periodic cell vectors is not used as a cell-axis number (monolayers are found whichever axis is the vacuum axis)")
+    with rep.guard("R04.10"):
+        masked_index_spaces(rep, M, "R04.10")
     rep.floor("R04.1", 6)
     rep.floor("R04.2", 6)
     rep.floor("R04.3", 8)
